@@ -1,15 +1,18 @@
 #!/bin/sh
-# mutation_matrix.sh: run the quick check of the property of every seeded change against it (scratch worktree) and
-# write seeded/matrix.txt  (id property caught|MISSED first-violation-line)
+# mutation_matrix.sh [parallelism]: run the quick check of the property of every seeded change against it (scratch
+# worktree, never /repo) and write seeded/matrix.txt  (id property caught|MISSED first-violation-line)
 cd /verif
+P=${1:-3}
 OUT=seeded/matrix.txt
-: > $OUT.tmp
-for d in seeded/*/; do
-  id=$(basename $d)
-  prop=$(python3 -c "import json;print(json.load(open('$d/meta.json'))['property'])")
+mkdir -p .work/matrix
+ls -d seeded/*/ | xargs -n 1 -P $P sh -c '
+  d=$0; id=$(basename $d)
+  prop=$(python3 -c "import json;print(json.load(open(\"$d/meta.json\"))[\"property\"])")
   res=$(tools/try_mutant.sh $d/patch.diff $prop 2>&1)
   line=$(echo "$res" | grep -A1 "^VIOLATION" | grep "^  C" | head -1 | cut -c1-160)
   if echo "$res" | grep -q "^VIOLATION"; then st=caught; else st=MISSED; fi
-  echo "$id $prop $st $line" | tee -a $OUT.tmp
-done
-mv $OUT.tmp $OUT
+  echo "$id $prop $st $line" > .work/matrix/$id.txt
+  echo "$id $prop $st"
+'
+cat .work/matrix/*.txt | sort > $OUT
+grep -c caught $OUT; grep MISSED $OUT
